@@ -62,7 +62,7 @@ let lseq_case id count ops =
     (if tries = [] then "-" else String.concat "" tries) rets
     (if (snd !c O).lprog = [] then 1 else 0)
 
-(* ---- latch, lock-step on OS threads: count_down / wait / try_wait *)
+(* ---- latch, lock-step on OS threads: count_down / wait / try_wait / arrive_and_wait *)
 let llock_case id count progs sched =
   let tn = List.length progs in
   let parr = Array.of_list (List.map (fun p -> List.map lop_of (split_on ',' p)) progs) in
@@ -72,27 +72,47 @@ let llock_case id count progs sched =
     let l = snd !c t in
     match l.lpcs with
     | LIdle -> (match l.lprog with [] -> 0 | LCountDown _ :: _ -> 911 | LWait :: _ -> 914 | LTryWait :: _ -> 915 | LArriveWait _ :: _ -> 917)
-    | LNotify (true, _) -> 912 | LNotify (false, _) -> 913 | LAwNotify -> 918
+    | LNotify (true, _) -> 912 | LNotify (false, false) -> 913 | LNotify (false, true) -> 918 | LAwNotify -> 919
     | LSusp -> 9001 | LBlk -> 9002 | LRewait -> 916 in
   let sites = Buffer.create 64 in
   let first = ref true in
+  let forced s = String.length s > 0 && s.[String.length s - 1] = 'f' in
+  let view () =
+    String.concat "," (List.init tn (fun i ->
+      let t = nat_of_int i in
+      if site t = 9002 && not ((fst !c).ag t).blocked then c := step (latch_tstep true) !c (t, ONorm);
+      let l = snd !c t in
+      let pos = List.length parr.(i) - List.length l.lprog in
+      match site t with
+      | 0 -> "D" | 9002 -> Printf.sprintf "%dB" pos | s -> Printf.sprintf "%d.%d" pos s)) in
+  let views = ref [view ()] in
+  let pending = ref false in
   List.iter (fun s ->
+    if not (forced s) then begin
+      if !pending then views := view () :: !views;
+      pending := true end;
+    let s = if forced s then String.sub s 0 (String.length s - 1) else s in
     let t = nat_of_int (int_of_string s) in
     (* a blocked waiter that was resumed continues to its next hook on its own *)
     if site t = 9002 then c := step (latch_tstep true) !c (t, ONorm);
     if not !first then Buffer.add_char sites ',';
     first := false;
     Buffer.add_string sites (string_of_int (site t));
-    c := step (latch_tstep true) !c (t, ONorm)) (split_on ',' sched);
+    c := step (latch_tstep true) !c (t, ONorm);
+    (* arrive_and_wait, last arriver: the critical section entered at 917 continues (lock held)
+       with notified_ = true and the first notify_one: model steps AW0 and AWN in one entry *)
+    if (snd !c t).lpcs = LAwNotify then c := step (latch_tstep true) !c (t, ONorm)) (split_on ',' sched);
+  if !pending then views := view () :: !views;
   let g = fst !c in
   let tries = Array.make tn "" and rets = Array.make tn 0 in
   List.iter (function
     | LTry (t, r) -> let i = int_of_nat t in tries.(i) <- (if r then "1" else "0") ^ tries.(i)
     | LRet (t, _, _) -> let i = int_of_nat t in rets.(i) <- rets.(i) + 1) g.llog;
-  Printf.printf "OUT LLOCK %s sites=%s try=%s rets=%s\n" id
+  Printf.printf "OUT LLOCK %s sites=%s try=%s rets=%s views=%s\n" id
     (if Buffer.length sites = 0 then "-" else Buffer.contents sites)
     (String.concat "|" (Array.to_list tries))
     (String.concat "," (Array.to_list (Array.map string_of_int rets)))
+    (String.concat ";" (List.rev !views))
 
 (* ---- call_once, sequential: thread 0 makes k calls, plan.[i] = the i-th run throws *)
 let oseq_case id k plan =
@@ -107,6 +127,122 @@ let oseq_case id k plan =
     | OBegin _ -> "B" | OEnd (_, true) -> "E" | OEnd (_, false) -> "e" | ORet _ -> "R" | OThrown _ -> "T") (fst !c).olog) in
   Printf.printf "OUT OSEQ %s log=%s\n" id s
 
+(* ---- event / call_once, lock-step on OS threads (harness/c09_evonce.cpp).
+   A schedule entry "t" releases thread t at its hooked point: the model runs t's step there; a
+   spinlock critical section of the real code is one entry (set(): ES1 and all ESN steps).  An
+   entry "tf" is the forced suspend step of a waiter on which the notifier blocked inside
+   default_agent::resume (model: the resume left a token, the suspend step consumes it).  "R" is
+   the controller's rescue set() in a stuck state (thread id T).  After every macro step the view
+   of all threads is printed: <progress>.<site> | <progress>B (blocked in suspend) | D. *)
+let ev_site = function
+  | EW0 -> "940" | EW1 -> "941" | ESusp -> "9001" | EBlk -> "B" | ERw -> "916"
+  | ES0 -> "942" | ES1 -> "943" | ESN _ -> "943+" | ER0 -> "944" | EDone -> "done"
+
+let entries sched = if sched = "-" then [] else split_on ',' sched
+let is_forced s = String.length s > 0 && s.[String.length s - 1] = 'f'
+let tid_of s = int_of_string (if is_forced s then String.sub s 0 (String.length s - 1) else s)
+
+let replay_views ents exec view =
+  let views = ref [view ()] in
+  let pending = ref false in
+  List.iter (fun s ->
+    if not (is_forced s) then begin
+      if !pending then views := view () :: !views;
+      pending := true end;
+    exec s) ents;
+  if !pending then views := view () :: !views;
+  String.concat ";" (List.rev !views)
+
+let elock_case id progs sched =
+  let tn = List.length progs in
+  let eop_of = function 'w' -> EWait | 's' -> ESet | 'r' -> EReset | _ -> EOcc in
+  let parr = Array.of_list (List.map (fun p -> List.init (String.length p) (fun i -> eop_of p.[i])) progs) in
+  let ents = entries sched in
+  let nresc = List.length (List.filter (fun s -> s = "R") ents) in
+  let progf t = let i = int_of_nat t in
+    if i < tn then parr.(i) else if i = tn then List.init nresc (fun _ -> ESet) else [] in
+  let c = ref (e_init, e_locals progf) in
+  let stp t = c := step e_tstep !c (t, ENorm) in
+  let normalise t =
+    let go = ref true and guard = ref 0 in
+    while !go && !guard < 10 do
+      incr guard;
+      let l = snd !c t in
+      match l.epcs with
+      | None -> (match l.eprog with (EWait | ESet | EReset) :: _ -> stp t | _ -> go := false)
+      | Some EBlk -> if ((fst !c).est.eag t).blocked then go := false else stp t
+      | _ -> go := false
+    done in
+  let rec crit t k = if k > 0 then match (snd !c t).epcs with Some (ESN _) -> stp t; crit t (k - 1) | _ -> () in
+  let view () =
+    String.concat "," (List.init tn (fun i ->
+      let t = nat_of_int i in
+      normalise t;
+      let l = snd !c t in
+      let pos = List.length parr.(i) - List.length l.eprog in
+      match l.epcs with
+      | None -> (match l.eprog with [] -> "D" | _ -> Printf.sprintf "%d.945" pos)
+      | Some EBlk -> Printf.sprintf "%dB" pos
+      | Some pc -> Printf.sprintf "%d.%s" pos (ev_site pc))) in
+  let exec s =
+    if s = "R" then begin
+      let t = nat_of_int tn in
+      normalise t; stp t; stp t; crit t 100 end
+    else begin
+      let t = nat_of_int (tid_of s) in
+      normalise t; stp t; crit t 100 end in
+  let views = replay_views ents exec view in
+  let occ = Array.make tn "" in
+  List.iter (function
+    | EOccurred (t, b) -> let i = int_of_nat t in if i < tn then occ.(i) <- (if b then "1" else "0") ^ occ.(i)
+    | _ -> ()) (fst !c).elog;
+  Printf.printf "OUT ELOCK %s views=%s occ=%s\n" id views (String.concat "|" (Array.to_list occ))
+
+let olock_case id calls plan sched =
+  let carr = Array.of_list (List.map int_of_string (split_on ',' calls)) in
+  let tn = Array.length carr in
+  let plan = if plan = "-" then "" else plan in
+  let c = ref (o_init, o_locals (fun t -> let i = int_of_nat t in if i < tn then nat_of_int carr.(i) else O)) in
+  let stp t =
+    let runs = int_of_nat (nend (fst !c).olog) in
+    let th = runs < String.length plan && plan.[runs] = '1' in
+    c := step o_tstep !c (t, OONorm th) in
+  let normalise t =
+    let go = ref true and guard = ref 0 in
+    while !go && !guard < 10 do
+      incr guard;
+      let l = snd !c t in
+      match l.opc with
+      | None -> (match l.calls with O -> go := false | S _ -> stp t)
+      | Some (OWaitE EBlk) -> if ((fst !c).oev.eag t).blocked then go := false else stp t
+      | _ -> go := false
+    done in
+  let rec crit t k =
+    if k > 0 then match (snd !c t).opc with Some (OSet (_, ESN _)) -> stp t; crit t (k - 1) | _ -> () in
+  let view () =
+    String.concat "," (List.init tn (fun i ->
+      let t = nat_of_int i in
+      normalise t;
+      let l = snd !c t in
+      let pos = carr.(i) - int_of_nat l.calls - (match l.opc with None -> 0 | Some _ -> 1) in
+      match l.opc with
+      | None -> "D"
+      | Some (OWaitE EBlk) -> Printf.sprintf "%dB" pos
+      | Some pc ->
+        Printf.sprintf "%d.%s" pos (match pc with
+          | OC0 -> "931" | OC1 -> "932" | OR1 -> "944" | OBody -> "933"
+          | OStore true -> "934" | OStore false -> "930"
+          | OSet (_, sub) -> ev_site sub | OWaitE sub -> ev_site sub))) in
+  let exec s = let t = nat_of_int (tid_of s) in normalise t; stp t; crit t 100 in
+  let views = replay_views (entries sched) exec view in
+  let log = String.concat "" (List.rev_map (function
+    | OBegin _ -> ""
+    | OEnd (t, true) -> Printf.sprintf "E%d" (int_of_nat t)
+    | OEnd (t, false) -> Printf.sprintf "e%d" (int_of_nat t)
+    | ORet t -> Printf.sprintf "R%d" (int_of_nat t)
+    | OThrown t -> Printf.sprintf "T%d" (int_of_nat t)) (fst !c).olog) in
+  Printf.printf "OUT OLOCK %s views=%s log=%s\n" id views (if log = "" then "-" else log)
+
 let () =
   try
     while true do
@@ -115,6 +251,10 @@ let () =
       | ["IN"; "BAR"; id; e0; _p; progs; sched] -> bar_case id (int_of_string e0) progs sched
       | ["IN"; "LSEQ"; id; count; ops] -> lseq_case id (int_of_string count) ops
       | ["IN"; "OSEQ"; id; k; plan] -> oseq_case id (int_of_string k) plan
+      | "IN" :: "ELOCK" :: id :: t :: rest ->
+        let tn = int_of_string t in
+        elock_case id (List.filteri (fun i _ -> i < tn) rest) (List.nth rest tn)
+      | ["IN"; "OLOCK"; id; _t; calls; plan; sched] -> olock_case id calls plan sched
       | "IN" :: "LLOCK" :: id :: count :: t :: rest ->
         let tn = int_of_string t in
         let progs = List.filteri (fun i _ -> i < tn) rest in
